@@ -99,5 +99,12 @@ def register(claim, na):
           "RuntimeErrors are returned or sent, the watcher callback sends at most once, ErrorHook is consumed by elevation, handlers run without the lock. "
           "Channel delivery itself is trusted.",
           "trusts tokio mpsc (bounded, lossless for send().await), OnceLock; what user handlers do is opaque", "DESIGN.md section 5 C15")
-    for p in ["C03", "C05", "C11", "C12", "C14", "C18"]:
+    claim("C03", "other", "THIR path enumeration of IgnoreFilter::match_path's search loop with boolean implication on the containment test (taint-style: string-prefix lookup -> component check -> consult), deny-list of order-destroying combinators on the load chain, MIR def-use for per-directory scoping of add_line / trie keys",
+          "Decides the scoping structure: a trie node found by string-prefix lookup is consulted only after a component-wise ancestor test, undecided "
+          "nodes continue with the parent of their key, files are loaded in listed order, every pattern line is scoped to its file's directory and "
+          "stored under that directory's key, and consumers re-check the scope of positive matches. What a glob matches (and agreement with git) is the "
+          "`ignore` crate's business and is not decided.",
+          "trusts the ignore crate's Gitignore matching, radix_trie::get_ancestor being a string-prefix lookup, Path::starts_with being component-wise",
+          "DESIGN.md section 5 C03")
+    for p in ["C05", "C11", "C12", "C14", "C18"]:
         na(p, PENDING)
